@@ -425,7 +425,10 @@ int cif_parse(FILE *stream, struct cif_parse_opts_s *options, cif_tp **cifp) {
                 DEFAULT_FAIL(early);
             } else if (encoding_name != NULL) {
                 /* a Unicode encoding signature is successfully detected */
-                /* nothing to do here */
+                if ((options->prefer_cif2 > 0) && (options->prefer_cif2 < 20)) {
+                    /* as in the other cases, default to CIF 2.0 if there turns out to be no version comment */
+                    cif_version = -2;
+                }
             } else if (options->prefer_cif2 > 19) {
                 /*
                  * The encoding was not confidently identified or explicitly named, but the user insists on parsing as
@@ -453,7 +456,7 @@ int cif_parse(FILE *stream, struct cif_parse_opts_s *options, cif_tp **cifp) {
                  * There is a magic code for a CIF version other than 2.0, or there is no magic code and the caller
                  * has not opted to treat the input as CIF 2.0 in that case, or the user insists on CIF 1.
                  */
-                encoding_name = NULL;  /* use the default encoding */
+                encoding_name = options->default_encoding_name;  /* NULL means the system's default encoding */
                 cif_version = 1;
             }
         }
